@@ -28,7 +28,7 @@ func (m Msg) String() string {
 
 // Base is day 0 of the universe (dates are calendar days; clock and zone of a
 // criteria time are ignored, as documented on imap.SearchCriteria).
-var Base = time.Date(2024, time.March, 10, 0, 0, 0, 0, time.UTC)
+var Base = time.Date(2023, time.December, 30, 0, 0, 0, 0, time.UTC) // the universe straddles a year boundary
 
 // DayOf maps a criteria time to its day index using its own calendar date.
 func DayOf(t time.Time) int {
@@ -201,15 +201,16 @@ func NewUniverse(n int) *Universe {
 		return int(x>>33) % k
 	}
 	xa := []string{"", "foo", "bar baz"}
-	subj := []string{"hello world", "bye"}
-	body := []string{"alpha beta", "gamma", ""}
+	// some words occur in headers of some messages and in bodies of others
+	subj := []string{"hello world", "bye", "alpha news"}
+	body := []string{"alpha beta", "gamma", "", "hello there"}
 	sizes := []int64{0, 1, 3, 5, 7, 9, 10}
 	for i := 0; i < n; i++ {
 		m := Msg{
 			Seq: uint32(i + 1), UID: uint32(10*(i+1) + next(3)),
 			InternalDay: next(4), SentDay: next(4),
-			Headers: map[string]string{"subject": subj[next(2)]},
-			Body:    body[next(3)],
+			Headers: map[string]string{"subject": subj[next(3)]},
+			Body:    body[next(4)],
 			Flags:   map[string]bool{},
 			Size:    sizes[next(len(sizes))],
 		}
